@@ -57,6 +57,14 @@ theorem fact_call_sites :
       "validateS2SPresentationNonce: extractNonce(presentation)"] ∧
     Facts.C05.sitesExtractChallenge = ["validatePresentationNonce: extractChallenge(presentation) [in range presentations]"] := by decide
 
+/-- a request's store calls are made by the request itself, before it is answered: no `go` statement in auth/api/iam,
+    vcr/issuer or the session-store code (the only one in package storage is the bbolt backup loop), the code burn is a
+    plain `defer …Delete(…)` (`fact_consumer_calls`: no `:go` marker); and no request waits for, or shares the result
+    of, another one: no package-level synchronisation / coalescing / cache state in those packages.  This is what
+    lets a thread of the model be a sequential program whose result is its own. -/
+theorem fact_requests_are_self_contained :
+    Facts.C05.goStatements = ["storage.bboltDatabase.startBackup"] ∧ Facts.C05.syncGlobals = [] := by decide
+
 /-- one session database per engine: built once in `Configure`, handed out as it is by `GetSessionDatabase`
     (a database built per call would have its own mutex — and its own in-memory store) -/
 theorem fact_engine_wiring :
@@ -311,6 +319,16 @@ theorem s2s_no_replay_inside_window (cfg : Cfg) (ha : AtomicMark cfg) (window : 
   have := mark_successes_separated cfg ha st reqs sched i j ri rj fi fj hij hi hj hk
   rw [hs] at this
   omega
+
+/-! ### requests in flight at handler level -/
+
+/-- The at-most-once theorems above hold with handler-level overlap too: `Cfg.ext` makes an accepted request stay in
+    flight (`atExt`: parked before a collaborator call — the signer, the access-token store) while other requests enter,
+    and the theorems quantify over every `cfg`.  Concretely: a second request that enters while the first one is in
+    flight after its GetAndDelete is refused. -/
+example : ((run { todayMem with ext := fun _ => true } [.step 0, .step 0, .step 0, .step 1, .step 1, .step 0, .step 0]
+    (init [(⟨.burn .reqObj, "s"⟩, ⟨"c", 60⟩)] [.burn { kind := .reqObj, id := "s", want := "c" }, .burn { kind := .reqObj, id := "s", want := "c" }])).ths.map Thread.outcome)
+    = [some .ok, some .notFound] := by decide
 
 /-! ### store faults fail closed -/
 
